@@ -230,34 +230,85 @@ pub fn minimise_case(case: &MapperCase, fails: &dyn Fn(&MapperCase) -> bool) -> 
   let mut best = case.clone();
   let mut changed = true;
   let mut rounds = 0;
-  let dl = Deadline::after_secs(60);
+  // (a budget: minimisation only starts after a failure has been found, it never decides one)
+  let dl = Deadline::after_secs(90);
+  // chunked removal first (halves, quarters, ... single elements): long histories and layouts of
+  // tens of thousands of mappings would never get through one-at-a-time removal
+  fn chunked(len: usize, dl: &Deadline, mut try_remove: impl FnMut(usize, usize) -> Option<usize>) {
+    let mut len = len;
+    let mut chunk = (len / 2).max(1);
+    loop {
+      let mut end = len;
+      while end > 0 && !dl.passed() {
+        let start = end.saturating_sub(chunk);
+        match try_remove(start, end) {
+          Some(new_len) => {
+            len = new_len;
+            end = start.min(len);
+          }
+          None => end = start,
+        }
+      }
+      if chunk == 1 || dl.passed() {
+        break;
+      }
+      chunk = (chunk / 2).max(1);
+    }
+  }
   while changed && rounds < 50 && !dl.passed() {
     changed = false;
     rounds += 1;
-    // drop steps (from the end)
-    let mut i = best.steps.len();
-    while i > 0 {
-      i -= 1;
-      let mut c = best.clone();
-      c.steps.remove(i);
-      if fails(&c) {
-        best = c;
-        changed = true;
-      }
+    // drop steps
+    {
+      let n = best.steps.len();
+      let best_cell = std::cell::RefCell::new(best.clone());
+      let ch = std::cell::Cell::new(false);
+      chunked(n, &dl, |a, b| {
+        let mut c = best_cell.borrow().clone();
+        if b > c.steps.len() || a >= b {
+          return None;
+        }
+        c.steps.drain(a..b);
+        if fails(&c) {
+          let l = c.steps.len();
+          *best_cell.borrow_mut() = c;
+          ch.set(true);
+          Some(l)
+        } else {
+          None
+        }
+      });
+      best = best_cell.into_inner();
+      changed |= ch.get();
     }
     // drop mappings
-    let mut i = best.layout.mappings.len();
-    while i > 0 {
-      i -= 1;
-      let mut c = best.clone();
-      c.layout.mappings.remove(i);
-      if fails(&c) {
-        best = c;
-        changed = true;
-      }
+    {
+      let n = best.layout.mappings.len();
+      let best_cell = std::cell::RefCell::new(best.clone());
+      let ch = std::cell::Cell::new(false);
+      chunked(n, &dl, |a, b| {
+        let mut c = best_cell.borrow().clone();
+        if b > c.layout.mappings.len() || a >= b {
+          return None;
+        }
+        c.layout.mappings.drain(a..b);
+        if fails(&c) {
+          let l = c.layout.mappings.len();
+          *best_cell.borrow_mut() = c;
+          ch.set(true);
+          Some(l)
+        } else {
+          None
+        }
+      });
+      best = best_cell.into_inner();
+      changed |= ch.get();
     }
     // simplify mappings
     for mi in 0..best.layout.mappings.len() {
+      if dl.passed() {
+        break;
+      }
       // repeat -> Normal
       if !matches!(best.layout.mappings[mi].repeat, Repeat::Normal) {
         let mut c = best.clone();
@@ -400,6 +451,67 @@ pub fn gen_random_case(src: &mut Src, plan: &Plan, hist: &HistOpts) -> Option<Ma
   let crowd = if hist.marathon_taps == 0 && src.chance(4) { add_crowd(src, &mut g) } else { vec![] };
   let steps = gen_history_mixed(src, &g.layout, &g.alphabet, hist, &crowd);
   Some(MapperCase { layout: g.layout, alphabet: g.alphabet, steps, family: g.family })
+}
+
+// *rollover* cases: a short typing prefix, then one tap pattern repeated a boundary-biased number
+// of times (around 2^8 and 2^16: counters, generation stamps and bounded histories in the code
+// under test wrap or overflow there), then a short typing suffix. All keys are released between
+// the three parts.
+pub fn gen_rollover_case(src: &mut Src, plan: &Plan) -> Option<MapperCase> {
+  let ws: Vec<u32> = plan.families.iter().map(|f| f.2).collect();
+  let (fam, allow_abs, _) = plan.families[src.weighted(&ws)];
+  let opts = LayoutOpts { allow_absorbing: allow_abs, max_alphabet: 6 };
+  let g = loaded(gen_family(src, fam, &opts))?;
+  fn release_held(steps: &mut Vec<Step>) {
+    let mut held: Vec<KeyCode> = Vec::new();
+    for s in steps.iter() {
+      match s {
+        Step::Ev(Event::Pressed(k)) => {
+          if !held.contains(k) {
+            held.push(*k);
+          }
+        }
+        Step::Ev(Event::Released(k)) => held.retain(|x| x != k),
+        Step::ReleaseAll => held.clear(),
+      }
+    }
+    for k in held.into_iter().rev() {
+      steps.push(Step::Ev(Event::Released(k)));
+    }
+  }
+  let mut steps = gen_typing(src, &g.layout, &g.alphabet, 10, &[]);
+  release_held(&mut steps);
+  let mut unit: Vec<Step> = Vec::new();
+  let n_taps = if src.chance(30) { 2 } else { 1 };
+  for _ in 0..n_taps {
+    if g.layout.mappings.is_empty() || src.chance(20) {
+      if g.alphabet.is_empty() {
+        continue;
+      }
+      let k = src.pick(&g.alphabet);
+      unit.push(Step::Ev(Event::Pressed(k)));
+      unit.push(Step::Ev(Event::Released(k)));
+    } else {
+      let m = src.pick(&g.layout.mappings);
+      for t in &m.from {
+        unit.push(Step::Ev(Event::Pressed(*t)));
+      }
+      for t in m.from.iter().rev() {
+        unit.push(Step::Ev(Event::Released(*t)));
+      }
+    }
+  }
+  let base: usize = if src.chance(15) { 256 } else { 65_536 };
+  let k = base - 6 + src.below(9);
+  if !unit.is_empty() {
+    for _ in 0..k {
+      steps.extend(unit.iter().cloned());
+    }
+  }
+  let mut suffix = gen_typing(src, &g.layout, &g.alphabet, 10, &[]);
+  release_held(&mut suffix);
+  steps.extend(suffix);
+  Some(MapperCase { layout: g.layout, alphabet: g.alphabet, steps, family: format!("{}+rollover", g.family) })
 }
 
 pub fn case_relevant(plan: &Plan, l: &Layout) -> bool {
@@ -706,7 +818,55 @@ pub fn check(id: u32, cfg: &RunCfg, findings: &Findings) -> Report {
         return Ok(());
       }
       stats.label("marathon");
+      stats.label(&format!("marathon-family:{}", c.family));
+      if c.layout.mappings.len() > 60_000 {
+        stats.label("marathon-giant-layout");
+      }
       stats.count("marathon-events", c.steps.len() as u64);
+      match run_mapper_case(c, sel, stats, findings) {
+        Ok(facts) => {
+          if nontrivial_by_rule(id, &facts) {
+            stats.nontrivial_case(c.canonical_hash());
+          }
+          Ok(())
+        }
+        Err((_p, v)) => Err(v),
+      }
+    },
+  );
+  rep.stats.merge(st);
+  if let Some(f) = fail {
+    if let Some(c) = f.case {
+      report_failure(id, &mut rep, c, f.violation, findings);
+    }
+    return rep;
+  }
+  // 6. rollovers: one tap pattern repeated about 2^8 / 2^16 times between two short typing runs
+  let (st, fail) = run_prop(
+    cfg,
+    &format!("{}-rollover", name),
+    16,
+    if quick { 60 } else { 1_500 },
+    100,
+    400,
+    |src: &mut Src| gen_rollover_case(src, plan_ref),
+    |c: &Option<MapperCase>, stats: &mut Stats| {
+      let c = match c {
+        Some(c) => c,
+        None => {
+          stats.discards += 1;
+          return Ok(());
+        }
+      };
+      if !case_relevant(plan_ref, &c.layout) {
+        stats.discards += 1;
+        return Ok(());
+      }
+      stats.label("rollover");
+      if c.steps.len() > 100_000 {
+        stats.label("rollover-2^16");
+      }
+      stats.count("rollover-events", c.steps.len() as u64);
       match run_mapper_case(c, sel, stats, findings) {
         Ok(facts) => {
           if nontrivial_by_rule(id, &facts) {
